@@ -141,20 +141,27 @@ func FormatNumber(value float64, picture string, format DecimalFormat) (string, 
 	}
 
 	exponent := 0
-	if vars.MinExponentSize != 0 {
+	if vars.MinExponentSize != 0 && value != 0 {
 
 		maxMantissa := math.Pow(10, float64(vars.ScalingFactor))
 		minMantissa := math.Pow(10, float64(vars.ScalingFactor-1))
 
-		for value < minMantissa {
-			value *= 10
+		// Scale the magnitude of the number. Scaling a negative
+		// number (or zero) until it is greater than a positive
+		// minimum would never end.
+		mantissa := math.Abs(value)
+
+		for mantissa < minMantissa {
+			mantissa *= 10
 			exponent--
 		}
 
-		for value > maxMantissa {
-			value /= 10
+		for mantissa > maxMantissa {
+			mantissa /= 10
 			exponent++
 		}
+
+		value = math.Copysign(mantissa, value)
 	}
 
 	var integerPart, fractionalPart, exponentPart string
